@@ -55,7 +55,9 @@ P0 == S.res.prog
 Gen1 == Load(Serialize(P0))
 InScope == AllParamsUsed(P0) /\ ~HasSymArray(P0)
 RoundTrip == (Done /\ InScope) => (Gen1.k = "ok" /\ SameProgram(Gen1.prog, P0))
-Stationary == (Done /\ InScope /\ Gen1.k = "ok") => Serialize(Gen1.prog) = Serialize(P0)
+\* (a tdm program's serialisation declares all its variables, so the hoisted arrays A0, A1, ... of by-value array arguments
+\*  join them in the next generation: stationary only up to those)
+Stationary == (Done /\ InScope /\ Gen1.k = "ok" /\ (P0.type.name = "tdm" => ArrSlots(P0) = <<>>)) => Serialize(Gen1.prog) = Serialize(P0)
 SecondGeneration == (Done /\ InScope /\ Gen1.k = "ok") => LET g2 == Load(Serialize(Gen1.prog)) IN g2.k = "ok" /\ SameProgram(g2.prog, P0)
 EmitRT == Over => PrintT(<<"CASE", ToJson([s |-> script, out |-> S.res, inscope |-> IF Done THEN InScope ELSE FALSE])>>)
 =============================================================================
